@@ -52,13 +52,19 @@ type keyioCase struct {
 // a modulus of 1028, 1031 or 2047 bits is as good a key as one of 1024. "All supported key ...
 // sizes" therefore includes the lengths that are not a whole number of octets; the signature of such
 // a key is as long as the modulus in octets, rounded UP (RFC 8017 8.2.1: k = length in octets of n).
-// The generator draws the length from oddRSABits so that every residue modulo 8 occurs on both sides
-// of an octet boundary; keys are made once per (algorithm, length) and process.
+// The generator draws the length from oddRSABits so that every residue modulo 8 occurs (1025..1032:
+// 129 octets with 1..8 bits in the first one; the thorough tier also takes 1033..1040 and the lengths
+// around 2048); keys are made once per (algorithm, length) and process.
 func oddRSABits(t *rapid.T) int {
-	if pbt.Thorough() && rapid.IntRange(0, 7).Draw(t, "oddbig") == 0 {
-		return rapid.IntRange(2041, 2056).Draw(t, "oddbits")
+	if pbt.Thorough() {
+		switch rapid.IntRange(0, 7).Draw(t, "oddbig") {
+		case 0:
+			return rapid.IntRange(2041, 2056).Draw(t, "oddbits")
+		case 1, 2:
+			return rapid.IntRange(1033, 1040).Draw(t, "oddbits")
+		}
 	}
-	return rapid.IntRange(1025, 1040).Draw(t, "oddbits")
+	return rapid.IntRange(1025, 1032).Draw(t, "oddbits")
 }
 
 // detRSAKey is a reference-made RSA key with a modulus of exactly bits bits, a fixed function of
